@@ -6,7 +6,7 @@ from vlib.proto import hexs, unhex
 
 LEAN_TARGETS = ["LyModel.Props.C10", "LyModel.Props.C10Yin"]
 AUDIT = "Audit/C10.lean"
-GENERATED = ["YangStr", "YinArgs"]
+GENERATED = ["YangStr", "YinArgs", "YinCard"]
 ASSUMPTIONS = [
     "DESIGN.md §5 C10: (P) string side proved on the model (ypr_encode/ypr_text/yprp_stmt vs read_qstring/get_argument/get_keyword/parse_ext_substmt); "
     "whole-module faithfulness (every statement printer, YIN printer/parser, compiled and tree printers) is (L): laws evaluated on the implementation",
